@@ -115,9 +115,12 @@ func scalarRecv(f func(r *secp.ModNScalar, o [][]uint64, s []uint64) (uint64, bo
 }
 
 var adapters = map[string]adapter{
-	"Field_Zero":   fieldRecv(func(r *secp.FieldVal, o [][]uint64, s []uint64) (uint64, bool) { r.Zero(); return 0, false }),
-	"Field_Set":    fieldRecv(func(r *secp.FieldVal, o [][]uint64, s []uint64) (uint64, bool) { r.Set(fv(o[1])); return 0, false }),
-	"Field_SetInt": fieldRecv(func(r *secp.FieldVal, o [][]uint64, s []uint64) (uint64, bool) { r.SetInt(uint16(s[0])); return 0, false }),
+	"Field_Zero": fieldRecv(func(r *secp.FieldVal, o [][]uint64, s []uint64) (uint64, bool) { r.Zero(); return 0, false }),
+	"Field_Set":  fieldRecv(func(r *secp.FieldVal, o [][]uint64, s []uint64) (uint64, bool) { r.Set(fv(o[1])); return 0, false }),
+	"Field_SetInt": fieldRecv(func(r *secp.FieldVal, o [][]uint64, s []uint64) (uint64, bool) {
+		r.SetInt(uint16(s[0]))
+		return 0, false
+	}),
 	"Field_SetBytes": fieldRecv(func(r *secp.FieldVal, o [][]uint64, s []uint64) (uint64, bool) {
 		return uint64(r.SetBytes(bytes32(o[1]))), true
 	}),
@@ -139,11 +142,23 @@ var adapters = map[string]adapter{
 		r.NegateVal(fv(o[1]), uint32(s[0]))
 		return 0, false
 	}),
-	"Field_AddInt": fieldRecv(func(r *secp.FieldVal, o [][]uint64, s []uint64) (uint64, bool) { r.AddInt(uint16(s[0])); return 0, false }),
-	"Field_Add":    fieldRecv(func(r *secp.FieldVal, o [][]uint64, s []uint64) (uint64, bool) { r.Add(fv(o[1])); return 0, false }),
-	"Field_Add2":   fieldRecv(func(r *secp.FieldVal, o [][]uint64, s []uint64) (uint64, bool) { r.Add2(fv(o[1]), fv(o[2])); return 0, false }),
-	"Field_MulInt": fieldRecv(func(r *secp.FieldVal, o [][]uint64, s []uint64) (uint64, bool) { r.MulInt(uint8(s[0])); return 0, false }),
-	"Field_Mul2":   fieldRecv(func(r *secp.FieldVal, o [][]uint64, s []uint64) (uint64, bool) { r.Mul2(fv(o[1]), fv(o[2])); return 0, false }),
+	"Field_AddInt": fieldRecv(func(r *secp.FieldVal, o [][]uint64, s []uint64) (uint64, bool) {
+		r.AddInt(uint16(s[0]))
+		return 0, false
+	}),
+	"Field_Add": fieldRecv(func(r *secp.FieldVal, o [][]uint64, s []uint64) (uint64, bool) { r.Add(fv(o[1])); return 0, false }),
+	"Field_Add2": fieldRecv(func(r *secp.FieldVal, o [][]uint64, s []uint64) (uint64, bool) {
+		r.Add2(fv(o[1]), fv(o[2]))
+		return 0, false
+	}),
+	"Field_MulInt": fieldRecv(func(r *secp.FieldVal, o [][]uint64, s []uint64) (uint64, bool) {
+		r.MulInt(uint8(s[0]))
+		return 0, false
+	}),
+	"Field_Mul2": fieldRecv(func(r *secp.FieldVal, o [][]uint64, s []uint64) (uint64, bool) {
+		r.Mul2(fv(o[1]), fv(o[2]))
+		return 0, false
+	}),
 	"Field_SquareVal": fieldRecv(func(r *secp.FieldVal, o [][]uint64, s []uint64) (uint64, bool) {
 		r.SquareVal(fv(o[1]))
 		return 0, false
@@ -151,13 +166,27 @@ var adapters = map[string]adapter{
 	"Field_IsGtOrEqPrimeMinusOrder": fieldRecv(func(r *secp.FieldVal, o [][]uint64, s []uint64) (uint64, bool) {
 		return b2u(r.IsGtOrEqPrimeMinusOrder()), true
 	}),
-	"CT_Eq_lit":          func(o [][]uint64, s []uint64) (uint64, bool) { return uint64(secp.VerifCT(0, uint32(s[0]), uint32(s[1]))), true },
-	"CT_NotEq_lit":       func(o [][]uint64, s []uint64) (uint64, bool) { return uint64(secp.VerifCT(1, uint32(s[0]), uint32(s[1]))), true },
-	"CT_Less_lit":        func(o [][]uint64, s []uint64) (uint64, bool) { return uint64(secp.VerifCT(2, uint32(s[0]), uint32(s[1]))), true },
-	"CT_LessOrEq_lit":    func(o [][]uint64, s []uint64) (uint64, bool) { return uint64(secp.VerifCT(3, uint32(s[0]), uint32(s[1]))), true },
-	"CT_Greater_lit":     func(o [][]uint64, s []uint64) (uint64, bool) { return uint64(secp.VerifCT(4, uint32(s[0]), uint32(s[1]))), true },
-	"CT_GreaterOrEq_lit": func(o [][]uint64, s []uint64) (uint64, bool) { return uint64(secp.VerifCT(5, uint32(s[0]), uint32(s[1]))), true },
-	"CT_Min_lit":         func(o [][]uint64, s []uint64) (uint64, bool) { return uint64(secp.VerifCT(6, uint32(s[0]), uint32(s[1]))), true },
+	"CT_Eq_lit": func(o [][]uint64, s []uint64) (uint64, bool) {
+		return uint64(secp.VerifCT(0, uint32(s[0]), uint32(s[1]))), true
+	},
+	"CT_NotEq_lit": func(o [][]uint64, s []uint64) (uint64, bool) {
+		return uint64(secp.VerifCT(1, uint32(s[0]), uint32(s[1]))), true
+	},
+	"CT_Less_lit": func(o [][]uint64, s []uint64) (uint64, bool) {
+		return uint64(secp.VerifCT(2, uint32(s[0]), uint32(s[1]))), true
+	},
+	"CT_LessOrEq_lit": func(o [][]uint64, s []uint64) (uint64, bool) {
+		return uint64(secp.VerifCT(3, uint32(s[0]), uint32(s[1]))), true
+	},
+	"CT_Greater_lit": func(o [][]uint64, s []uint64) (uint64, bool) {
+		return uint64(secp.VerifCT(4, uint32(s[0]), uint32(s[1]))), true
+	},
+	"CT_GreaterOrEq_lit": func(o [][]uint64, s []uint64) (uint64, bool) {
+		return uint64(secp.VerifCT(5, uint32(s[0]), uint32(s[1]))), true
+	},
+	"CT_Min_lit": func(o [][]uint64, s []uint64) (uint64, bool) {
+		return uint64(secp.VerifCT(6, uint32(s[0]), uint32(s[1]))), true
+	},
 	"Acc96_Add_lit": func(o [][]uint64, s []uint64) (uint64, bool) {
 		r := secp.VerifAcc96([3]uint32{uint32(o[0][0]), uint32(o[0][1]), uint32(o[0][2])}, []uint64{s[0]})
 		o[0][0], o[0][1], o[0][2] = uint64(r[0]), uint64(r[1]), uint64(r[2])
@@ -167,11 +196,16 @@ var adapters = map[string]adapter{
 		o[0][0], o[0][1], o[0][2] = o[0][1], o[0][2], 0 // Rsh32 has no hook of its own; exercised through reduce/Mul2
 		return 0, false
 	},
-	"Scalar_Zero":      scalarRecv(func(r *secp.ModNScalar, o [][]uint64, s []uint64) (uint64, bool) { r.Zero(); return 0, false }),
-	"Scalar_SetInt":    scalarRecv(func(r *secp.ModNScalar, o [][]uint64, s []uint64) (uint64, bool) { r.SetInt(uint32(s[0])); return 0, false }),
+	"Scalar_Zero": scalarRecv(func(r *secp.ModNScalar, o [][]uint64, s []uint64) (uint64, bool) { r.Zero(); return 0, false }),
+	"Scalar_SetInt": scalarRecv(func(r *secp.ModNScalar, o [][]uint64, s []uint64) (uint64, bool) {
+		r.SetInt(uint32(s[0]))
+		return 0, false
+	}),
 	"Scalar_IsZeroBit": scalarRecv(func(r *secp.ModNScalar, o [][]uint64, s []uint64) (uint64, bool) { return uint64(r.IsZeroBit()), true }),
 	"Scalar_IsZero":    scalarRecv(func(r *secp.ModNScalar, o [][]uint64, s []uint64) (uint64, bool) { return b2u(r.IsZero()), true }),
-	"Scalar_overflows": scalarRecv(func(r *secp.ModNScalar, o [][]uint64, s []uint64) (uint64, bool) { return uint64(secp.VerifOverflows(r)), true }),
+	"Scalar_overflows": scalarRecv(func(r *secp.ModNScalar, o [][]uint64, s []uint64) (uint64, bool) {
+		return uint64(secp.VerifOverflows(r)), true
+	}),
 	"Scalar_reduce256": scalarRecv(func(r *secp.ModNScalar, o [][]uint64, s []uint64) (uint64, bool) {
 		secp.VerifReduce256(r, uint32(s[0]))
 		return 0, false
@@ -185,9 +219,14 @@ var adapters = map[string]adapter{
 		bytesOut(b[:], o[1])
 		return 0, false
 	}),
-	"Scalar_IsOdd":  scalarRecv(func(r *secp.ModNScalar, o [][]uint64, s []uint64) (uint64, bool) { return b2u(r.IsOdd()), true }),
-	"Scalar_Equals": scalarRecv(func(r *secp.ModNScalar, o [][]uint64, s []uint64) (uint64, bool) { return b2u(r.Equals(sv(o[1]))), true }),
-	"Scalar_Add2":   scalarRecv(func(r *secp.ModNScalar, o [][]uint64, s []uint64) (uint64, bool) { r.Add2(sv(o[1]), sv(o[2])); return 0, false }),
+	"Scalar_IsOdd": scalarRecv(func(r *secp.ModNScalar, o [][]uint64, s []uint64) (uint64, bool) { return b2u(r.IsOdd()), true }),
+	"Scalar_Equals": scalarRecv(func(r *secp.ModNScalar, o [][]uint64, s []uint64) (uint64, bool) {
+		return b2u(r.Equals(sv(o[1]))), true
+	}),
+	"Scalar_Add2": scalarRecv(func(r *secp.ModNScalar, o [][]uint64, s []uint64) (uint64, bool) {
+		r.Add2(sv(o[1]), sv(o[2]))
+		return 0, false
+	}),
 	"Scalar_reduce385": scalarRecv(func(r *secp.ModNScalar, o [][]uint64, s []uint64) (uint64, bool) {
 		var t [13]uint64
 		copy(t[:], s)
@@ -200,8 +239,14 @@ var adapters = map[string]adapter{
 		secp.VerifReduce512(r, t)
 		return 0, false
 	}),
-	"Scalar_Mul2":      scalarRecv(func(r *secp.ModNScalar, o [][]uint64, s []uint64) (uint64, bool) { r.Mul2(sv(o[1]), sv(o[2])); return 0, false }),
-	"Scalar_NegateVal": scalarRecv(func(r *secp.ModNScalar, o [][]uint64, s []uint64) (uint64, bool) { r.NegateVal(sv(o[1])); return 0, false }),
+	"Scalar_Mul2": scalarRecv(func(r *secp.ModNScalar, o [][]uint64, s []uint64) (uint64, bool) {
+		r.Mul2(sv(o[1]), sv(o[2]))
+		return 0, false
+	}),
+	"Scalar_NegateVal": scalarRecv(func(r *secp.ModNScalar, o [][]uint64, s []uint64) (uint64, bool) {
+		r.NegateVal(sv(o[1]))
+		return 0, false
+	}),
 	"Scalar_IsOverHalfOrder": scalarRecv(func(r *secp.ModNScalar, o [][]uint64, s []uint64) (uint64, bool) {
 		return b2u(r.IsOverHalfOrder()), true
 	}),
@@ -390,6 +435,23 @@ func (h *H) fieldNormalised() []uint64 {
 
 func (h *H) scalarWords(canonical bool) []uint64 {
 	v := h.randScalarInt()
+	if h.rng.Intn(6) == 0 {
+		// a single hot word (all others zero), or all words equal but one: every word position must matter
+		o := make([]uint64, 8)
+		base := []uint64{0, 0, 0, 1, 0xffffffff}[h.rng.Intn(5)]
+		if canonical && base == 0xffffffff {
+			base = 0
+		}
+		for i := range o {
+			o[i] = base
+		}
+		j := h.rng.Intn(8)
+		o[j] = []uint64{1, 0x80000000, 0xffffffff, uint64(h.rng.Uint32()) | 1}[h.rng.Intn(4)]
+		if o[j] == base {
+			o[j] ^= 2
+		}
+		return o
+	}
 	if h.rng.Intn(3) == 0 {
 		// word classes
 		words := []uint64{0, 1, 0xffffffff, 0xfffffffe, 0xd0364141, 0xd0364140, 0xd0364142, 0xbfd25e8c, 0xaf48a03b, 0xbaaedce6, 0xfffffffe, 0x2fc9bebf, 0x402da173, 0x50b75fc4, 0x45512319}
